@@ -9,6 +9,7 @@ import LfsModel.Sha256
 import LfsModel.Creds
 import LfsModel.Config
 import LfsModel.RedirectModel
+import LfsModel.Download
 import LfsModel.Gen
 open Lfs
 
@@ -176,6 +177,38 @@ def c10 : List String → String
     | _, _ => "bad-op"
   | _ => "bad-op"
 
+def parseDlResp (s : String) : Option Dl.Resp :=
+  match s.splitOn "/" with
+  | [nr, st, rk, body, cut, ra] =>
+    let range? : Option (Option (Option Nat)) :=
+      if rk == "none" then some none else if rk == "bad" then some (some none) else rk.toNat?.map fun k => some (some k)
+    match st.toNat?, range?, unhex body with
+    | some st, some rg, some b => some { noResponse := nr == "1", status := st, rangeStart := rg, body := b, cutErr := cut == "1", retryAfterOk := ra == "1" }
+    | _, _, _ => none
+  | _ => none
+
+def unhexOpt (s : String) : Option (Option Bytes) := if s == "none" then some none else (unhex s).map some
+
+def shaOpt : Option Bytes → String
+  | none => "none"
+  | some [] => "empty"
+  | some b => String.ofList ((Sha256.hexDigest b).map fun c => Char.ofNat c.toNat)
+
+def c02 : List String → String
+  | ["dl", oid, size, part, final, script] =>
+    let script? := if script == "-" then some [] else (script.splitOn ",").mapM parseDlResp
+    match size.toNat?, unhexOpt part, unhexOpt final, script? with
+    | some sz, some p, some f, some sc =>
+      let (res, fs) := Dl.doTransfer Sha256.hexDigest oid.toUTF8.toList sz { part := p, final := f } sc
+      let o := match res with
+        | .ok => "ok"
+        | .fail true true => "fail-later"
+        | .fail true false => "fail-retriable"
+        | .fail false _ => "fail"
+      s!"{o} part={shaOpt fs.part} final={shaOpt fs.final}"
+    | _, _, _, _ => "bad-op"
+  | _ => "bad-op"
+
 def answer (line : String) : String :=
   match line.splitOn " " with
   | "C07" :: rest => c07 rest
@@ -183,6 +216,7 @@ def answer (line : String) : String :=
   | "C17" :: rest => c17 rest
   | "C11" :: rest => c11 rest
   | "C10" :: rest => c10 rest
+  | "C02" :: rest => c02 rest
   | _ => "bad-op"
 
 partial def loop (h : IO.FS.Stream) (out : IO.FS.Stream) : IO Unit := do
